@@ -28,6 +28,9 @@ for d in ids:
     try:
         r = sh(f"git -C {wt} apply {sd}/patch.diff")
         if r.returncode != 0:
+            # the patch was written against an earlier HEAD (hook or fix commits since): merge it
+            r = sh(f"git -C {wt} apply --3way {sd}/patch.diff")
+        if r.returncode != 0:
             print(d, "PATCH DOES NOT APPLY", r.stdout[:300]); continue
         for c in checks:
             t = time.time()
